@@ -70,14 +70,18 @@ class C12(CheckBase):
         return {'disc': disc, 'cmd': cmd, 'globals': g, 'hostile': nh,
                 'fault': rng.weighted([(6, None), (2, 'wfail'), (1, 'closefail')]) if cmdk != 'read' else None,
                 'fwhich': rng.below(64), 'fat': rng.choice([0, 1, 100, 256, 4096]),
-                'second': rng.chance(0.2)}
+                'second': rng.chance(0.2),
+                # the image may arrive gzip-compressed: dfs then spools it through a temporary file, which may fail to
+                # be created or written; TMPDIR may name a directory of the sandbox.  None of that may leave anything behind.
+                'gz': rng.chance(0.3), 'tmpfault': rng.weighted([(3, None), (4, 'createfail'), (2, 'wfail')]),
+                'tmpdir': rng.weighted([(2, None), (3, 'tmpd'), (1, 'out'), (1, '.')]), 'terrno': rng.choice(['EROFS', 'EACCES', 'ENOSPC', 'EMFILE', 'EOPNOTSUPP'])}
 
     def arrange(self, case, sb, s):
         """Create the directories hostile names would traverse, and decoys."""
         root = sb.root
         # lnk -> sub/deep, so the kernel resolves lnk/../out2 to sub/out2 (not to ./out2, which also exists as a decoy);
         # lnkout -> out
-        files = {'out': None, 'sub': None, 'sub/deep': None, 'sub/out2': None, 'out2': None, 'o': None, 'decoy.txt': b'decoy\n',
+        files = {'out': None, 'sub': None, 'sub/deep': None, 'sub/out2': None, 'out2': None, 'o': None, 'tmpd': None, 'decoy.txt': b'decoy\n',
                  'lnk': ('symlink', 'sub/deep'), 'lnkout': ('symlink', 'out'),
                  'ESC': b'pre-existing\n' if case['fwhich'] % 2 else None}
         if files['ESC'] is None:
@@ -104,6 +108,10 @@ class C12(CheckBase):
         s = dfswork.surface_of(case['disc'])
         img = s.render()
         name = 'img.' + case['disc']['ext']
+        if case.get('gz'):
+            from sim.models import gz as gzm
+            img = gzm.compress(img, {'level': 6})
+            name += '.gz'
         files = {name: img}
         if case['second']:
             files['other.ssd'] = dd.gen_surface(__import__('sim.prng', fromlist=['Rng']).Rng(77), variant='acorn', geom=(40, 10), img_id=7).render()
@@ -122,11 +130,22 @@ class C12(CheckBase):
             faults = [{'op': 'wfail', 'target': self.ftarget(case), 'errno': 'ENOSPC', 'at': case['fat']}]
         elif case['fault'] == 'closefail':
             faults = [{'op': 'closefail', 'target': self.ftarget(case), 'errno': 'EIO'}]
-        r = ctx.sk.run(sb, ctx.exe('rel', 'dfs'), argv, faults=faults)
+        env = None
+        nf = len(faults)
+        if case.get('gz'):
+            if case.get('tmpfault') == 'createfail':
+                faults = faults + [{'op': 'openfail', 'target': 'tmpfile', 'errno': case['terrno']}]
+            elif case.get('tmpfault') == 'wfail':
+                faults = faults + [{'op': 'wfail', 'target': 'tmpfile', 'errno': 'ENOSPC', 'at': case['fat'] * 7}]
+            if case.get('tmpdir'):
+                env = ['TMPDIR=' + os.path.join(sb.root, case['tmpdir'])]
+        r = ctx.sk.run(sb, ctx.exe('rel', 'dfs'), argv, faults=faults, env=env)
         out.add_run(r)
         delivered = r.fired() > 0
         if case['fault']:
             out.fault(case['fault'], delivered)
+        if len(faults) > nf:
+            out.fault('spool-' + case['tmpfault'], delivered)
         after = sb.snapshot()
         is_extract = case['cmd'][0] in ('extract-files', 'extract-unused')
         # the destination the user named, as the kernel resolves it
@@ -189,6 +208,12 @@ class C12(CheckBase):
             yield dict(case, fault=None)
         if case['second']:
             yield dict(case, second=False)
+        if case.get('gz') and case.get('tmpfault'):
+            yield dict(case, tmpfault=None)
+        if case.get('gz'):
+            yield dict(case, gz=False)
+        if case.get('tmpdir'):
+            yield dict(case, tmpdir=None)
         if case['globals']:
             yield dict(case, globals=[])
         disc = case['disc']
